@@ -227,6 +227,15 @@ func (w *World) SoilFile() (name, content string) {
 	if w.Decoys > 1 {
 		soils = append(soils, decoySoil("9Z2"))
 	}
+	if w.BadEnt {
+		bt := decoySoil("8T1")
+		bt.Horizons[0].Tex, bt.Horizons[1].Tex = "XQ7", "XQ7"
+		bf := decoySoil("8F1")
+		for i := range bf.Horizons {
+			bf.Horizons[i].Sand, bf.Horizons[i].Silt, bf.Horizons[i].Clay = 10, 10, 10
+		}
+		soils = append(soils, bt, bf)
+	}
 	if w.Cfg.SoilExt == "csv" {
 		cols := append([]string{}, soilCSVCols...)
 		bd := w.soilHasBD()
@@ -261,6 +270,10 @@ func (w *World) PolyFile() string {
 	if w.Decoys > 1 {
 		b.WriteString("00002 9Z2 ZZDECOY2  99 99 1 decoy" + e)
 	}
+	if w.BadEnt {
+		fmt.Fprintf(&b, "19001 %s %s %02d %02d %d unknown field%s", w.Soil.ID, pad("NOFIELD", 9), w.GWHi, w.GWLo, 0, e)
+		fmt.Fprintf(&b, "19002 %s %s %02d %02d %d tillage inside crop%s", w.Soil.ID, pad("TILLBAD", 9), w.GWHi, w.GWLo, 0, e)
+	}
 	b.WriteString("end" + e)
 	return b.String()
 }
@@ -290,6 +303,11 @@ func (w *World) RotationFile() (name, content string) {
 	}
 	if w.Decoys > 1 {
 		b.WriteString(line("ZZDECOY2", decoy, csv) + e)
+	}
+	if w.BadEnt {
+		for _, r := range w.Rot {
+			b.WriteString(line("TILLBAD", r, csv) + e)
+		}
 	}
 	if csv {
 		return "crop_" + w.Loc + ".csv", b.String()
@@ -339,6 +357,10 @@ func (w *World) TillFile() string {
 	}
 	for _, f := range w.Till {
 		fmt.Fprintf(&b, "%s %3d %d   %s%s", pad(w.Field, 9), f.Depth, f.Type, FmtDate(f.Day, df), e)
+	}
+	if w.BadEnt && len(w.Rot) > 1 {
+		mid := w.Rot[1].Sow + (w.Rot[1].Harvest-w.Rot[1].Sow)/2
+		fmt.Fprintf(&b, "%s %3d %d   %s%s", pad("TILLBAD", 9), 20, 1, FmtDate(mid, df), e)
 	}
 	return b.String()
 }
@@ -573,6 +595,12 @@ func (w *World) Files(oc *OutputCfg, ww *WeatherWorld) FileSet {
 	}
 	if w.Cfg.Preco {
 		fs["weather/wx/preco.txt"] = precoFile(w.eol())
+	}
+	if w.BadEnt && ww != nil {
+		gap := w.Start() + (w.Cfg.End-w.Start())/2
+		for name, content := range ww.Files(w.Cfg.WeatherLayout, w.Cfg.NumHeader, w.FCode+"gap", w.eol(), ww.Spec.FirstDay, ww.Spec.LastDay, map[Day]bool{gap: true}, ";") {
+			fs["weather/wx/"+name] = content
+		}
 	}
 	return fs
 }
